@@ -5,6 +5,7 @@ CONSTANTS
   IsSync <- Sync3
   MaxOps = 4
   OpKinds <- AllOps
+  FocusMode = FALSE
   WBad = "-"
   WEnd = "-"
 VIEW View
